@@ -1,7 +1,459 @@
-(* C38 — proofs. *)
+(* C38 — proofs: the order on packets, the invariant of the interleaving system,
+   the monitor on every run, the witness of the race before the fix. *)
 From V Require Import Lib.Base Model.C38.
 Import C38.
 Open Scope N_scope.
+
+(* ---------- order ---------- *)
+Lemma ble_refl a : ble a a = true.
+Proof. induction a as [|x a IH]; cbn; [reflexivity|]. rewrite N.ltb_irrefl, N.eqb_refl. exact IH. Qed.
+
+Lemma ble_trans a : forall b c, ble a b = true -> ble b c = true -> ble a c = true.
+Proof.
+  induction a as [|x a IH]; intros [|y b] [|z c]; cbn; try congruence.
+  destruct (N.ltb_spec x y), (N.ltb_spec y z), (N.ltb_spec x z); try congruence; try lia.
+  - destruct (N.eqb_spec y z); try congruence. lia.
+  - destruct (N.eqb_spec x y); try congruence. lia.
+  - destruct (N.eqb_spec x y), (N.eqb_spec y z), (N.eqb_spec x z); try congruence; try lia. apply IH.
+Qed.
+
+Lemma ble_total a : forall b, ble a b = false -> ble b a = true.
+Proof.
+  induction a as [|x a IH]; intros [|y b]; cbn; try congruence.
+  destruct (N.ltb_spec x y), (N.ltb_spec y x); try congruence; try lia.
+  destruct (N.eqb_spec x y), (N.eqb_spec y x); try congruence; try lia. apply IH.
+Qed.
+
+Lemma ge_refl a : ge a a = true.
+Proof. unfold ge, more_recent. rewrite N.eqb_refl, ble_refl. reflexivity. Qed.
+
+Lemma ge_trans a b c : ge a b = true -> ge b c = true -> ge a c = true.
+Proof.
+  unfold ge, more_recent.
+  destruct (N.eqb_spec (pts b) (pts a)), (N.eqb_spec (pts c) (pts b)), (N.eqb_spec (pts c) (pts a));
+    try lia; rewrite ?negb_involutive, ?negb_true_iff, ?N.ltb_ge; intros; try lia.
+  eapply ble_trans; eassumption.
+Qed.
+
+Lemma ge_total a b : ge a b = false -> ge b a = true.
+Proof.
+  unfold ge, more_recent. rewrite (N.eqb_sym (pts a) (pts b)).
+  destruct (N.eqb_spec (pts b) (pts a)); rewrite ?negb_involutive, ?negb_false_iff, ?negb_true_iff, ?N.ltb_lt, ?N.ltb_ge.
+  - apply ble_total.
+  - lia.
+Qed.
+
+(* a newer timestamp is not older *)
+Lemma ts_lt_ge a b : pts b < pts a -> ge a b = true.
+Proof.
+  intros H. unfold ge, more_recent. destruct (N.eqb_spec (pts b) (pts a)); [lia|].
+  rewrite negb_true_iff, N.ltb_ge. lia.
+Qed.
+
+(* ---------- small facts ---------- *)
+Lemma pubs_in tasks : forall i p, nth_error tasks i = Some (TPublish p) -> In p (pubs tasks).
+Proof.
+  induction tasks as [|t r IH]; intros [|i] p H; cbn in H; try discriminate.
+  - injection H as ->. cbn. now left.
+  - specialize (IH _ _ H). destruct t; cbn; auto.
+Qed.
+
+Lemma triple_eqb_refl x : triple_eqb x x = true.
+Proof. destruct x as [[a b] c]. cbn. now rewrite !N.eqb_refl. Qed.
+
+Lemma opt_N_eqb_refl (x : option N) : opt_eqb N.eqb x x = true.
+Proof. destruct x; cbn; [apply N.eqb_refl|reflexivity]. Qed.
+
+Lemma fresh_R_intro ps k nm a need :
+  (forall p, In p need -> pkey p = k ->
+     exists q, In q ps /\ pkey q = k /\ ge q p = true /\ ans q nm = a) ->
+  fresh_R ps k nm a need = true.
+Proof.
+  intros H. unfold fresh_R. apply forallb_forall. intros p Hp.
+  destruct (N.eqb_spec (pkey p) k) as [E|E]; [|reflexivity]. cbn [negb orb].
+  destruct (H p Hp E) as (q & Hq & Hk & Hg & Ha).
+  apply existsb_exists. exists q. split; [exact Hq|].
+  rewrite Hk, N.eqb_refl, Hg, Ha, opt_N_eqb_refl. reflexivity.
+Qed.
+
+Lemma fresh_G_intro ps k r need :
+  (forall p, In p need -> pkey p = k ->
+     exists q, In q ps /\ pkey q = k /\ ge q p = true /\ Some (triple q) = r) ->
+  fresh_G ps k r need = true.
+Proof.
+  intros H. unfold fresh_G. apply forallb_forall. intros p Hp.
+  destruct (N.eqb_spec (pkey p) k) as [E|E]; [|reflexivity]. cbn [negb orb].
+  destruct (H p Hp E) as (q & Hq & Hk & Hg & Ha).
+  apply existsb_exists. exists q. split; [exact Hq|].
+  rewrite Hk, N.eqb_refl, Hg, <- Ha. cbn [opt_eqb andb]. apply triple_eqb_refl.
+Qed.
+
+(* ---------- the invariant ---------- *)
+Record Inv (tasks : list task) (s : st) (m : mst) : Prop := {
+  (* stored packets were published, under their own key *)
+  i_store : forall k e, store s k = Some e -> pkey e = k /\ In e (pubs tasks);
+  (* an acknowledged publish is in the store, or something not older is *)
+  i_acked : forall p, In p (acked m) -> exists e, store s (pkey p) = Some e /\ ge e p = true;
+  (* a cached zone is not older than any acknowledged publish for its key *)
+  i_cache : forall k c, cache s k = Some c ->
+      pkey c = k /\ In c (pubs tasks) /\
+      forall p, In p (acked m) -> pkey p = k -> ge c p = true;
+  (* a lookup holding a packet read from the store *)
+  i_got : forall i k nm seen g, nth_error tasks i = Some (TResolve k nm) -> pcs s i = RGot seen g ->
+      pkey g = k /\ In g (pubs tasks) /\ seen <= inval s /\
+      (exists N, needs m i = Some N /\ forall p, In p N -> pkey p = k -> ge g p = true) /\
+      (seen = inval s -> forall p, In p (acked m) -> pkey p = k -> ge g p = true);
+  i_checked : forall i k nm seen, nth_error tasks i = Some (TResolve k nm) -> pcs s i = RChecked seen ->
+      seen <= inval s /\ exists N, needs m i = Some N;
+  i_needs : forall i N, needs m i = Some N -> incl N (acked m);
+  (* a publish between its upsert and its cache invalidation *)
+  i_pending : forall i p, nth_error tasks i = Some (TPublish p) -> pcs s i = PUpserted ->
+      exists e, store s (pkey p) = Some e /\ ge e p = true }.
+
+Lemma inv_init tasks : Inv tasks init minit.
+Proof. constructor; cbn; intros; try discriminate; try contradiction. Qed.
+
+Definition need_of (m : mst) (i : nat) : list pkt :=
+  match needs m i with Some n => n | None => acked m end.
+Definition m1_of (m : mst) (i : nat) : mst :=
+  mkMst (acked m) (updn (needs m) i (Some (need_of m i))).
+
+Lemma need_incl tasks s m i : Inv tasks s m -> incl (need_of m i) (acked m).
+Proof.
+  intros I. unfold need_of. destruct (needs m i) eqn:E; [eapply i_needs; eauto|apply incl_refl].
+Qed.
+
+Lemma m1_needs_same m i N : needs m i = Some N -> forall j, needs (m1_of m i) j = needs m j.
+Proof.
+  intros H j. unfold m1_of, need_of, updn. cbn. destruct (Nat.eqb_spec j i); [subst; now rewrite H|reflexivity].
+Qed.
+
+(* Only the program counter of task i changes, and its new value is not one the
+   invariant speaks about (or the clause is re-established by hand). *)
+Ltac upd_cases :=
+  repeat match goal with
+  | H : context [Nat.eqb ?j ?i] |- _ => destruct (Nat.eqb_spec j i); [subst|]
+  | |- context [Nat.eqb ?j ?i] => destruct (Nat.eqb_spec j i); [subst|]
+  end.
+
+(* setting the pc of i to Finished / RChecked / RGot with needs := m1 *)
+Lemma inv_m1_pc tasks s m i newpc :
+  Inv tasks s m ->
+  (forall k nm seen g, nth_error tasks i = Some (TResolve k nm) -> newpc = RGot seen g ->
+      pkey g = k /\ In g (pubs tasks) /\ seen <= inval s /\
+      (forall p, In p (need_of m i) -> pkey p = k -> ge g p = true) /\
+      (seen = inval s -> forall p, In p (acked m) -> pkey p = k -> ge g p = true)) ->
+  (forall k nm seen, nth_error tasks i = Some (TResolve k nm) -> newpc = RChecked seen -> seen <= inval s) ->
+  (forall p, nth_error tasks i = Some (TPublish p) -> newpc = PUpserted -> False) ->
+  Inv tasks (set_pc s i newpc) (m1_of m i).
+Proof.
+  intros I Hg Hc Hp. constructor; cbn [set_pc store cache inval pcs m1_of acked needs].
+  - apply (i_store _ _ _ I).
+  - apply (i_acked _ _ _ I).
+  - apply (i_cache _ _ _ I).
+  - intros j k nm seen g Ht Hpc. unfold updn in *. destruct (Nat.eqb_spec j i) as [->|Ne].
+    + destruct (Hg _ _ _ _ Ht Hpc) as (A & B & C & D & E). repeat split; auto.
+      exists (need_of m i). split; auto.
+    + apply (i_got _ _ _ I _ _ _ _ _ Ht Hpc).
+  - intros j k nm seen Ht Hpc. unfold updn in *. destruct (Nat.eqb_spec j i) as [->|Ne].
+    + split; [eapply Hc; eauto|eauto].
+    + apply (i_checked _ _ _ I _ _ _ _ Ht Hpc).
+  - intros j N. unfold updn. destruct (Nat.eqb_spec j i) as [->|Ne].
+    + intros [= <-]. eapply need_incl; eauto.
+    + apply (i_needs _ _ _ I).
+  - intros j p Ht Hpc. unfold updn in *. destruct (Nat.eqb_spec j i) as [->|Ne].
+    + exfalso. eapply Hp; eauto.
+    + apply (i_pending _ _ _ I _ _ Ht Hpc).
+Qed.
+
+(* one step of the fixed code keeps the invariant and passes the monitor *)
+Lemma step_inv tasks s m i s' o :
+  Inv tasks s m -> step true tasks s i = (s', o) ->
+  exists m', mon_step tasks m i o = Some m' /\ Inv tasks s' m'.
+Proof.
+  intros I. unfold step.
+  destruct (nth_error tasks i) as [t|] eqn:Ht.
+  2:{ intros [= <- <-]. exists m. split; [reflexivity|exact I]. }
+  assert (Hskip : (s, OSkip) = (s', o) -> exists m', mon_step tasks m i o = Some m' /\ Inv tasks s' m').
+  { intros [= <- <-]. exists m. split; [reflexivity|exact I]. }
+  fold (need_of m i).
+  destruct t as [k nm|p|k]; destruct (pcs s i) as [|seen|seen g| |] eqn:Hpc; try exact Hskip.
+  - (* resolve, cache check *)
+    unfold cache_resolve. destruct (cache s k) as [z|] eqn:Hc.
+    + destruct (ans z nm) as [v|] eqn:Ha.
+      * intros [= <- <-]. unfold mon_step. rewrite Ht. fold (need_of m i). fold (m1_of m i).
+        destruct (i_cache _ _ _ I _ _ Hc) as (Zk & Zin & Zge).
+        rewrite fresh_R_intro.
+        -- eexists; split; [reflexivity|]. apply inv_m1_pc; auto; intros; discriminate.
+        -- intros p Hp Hk. exists z. repeat split; auto. apply Zge; auto. eapply need_incl; eauto.
+      * intros [= <- <-]. unfold mon_step. rewrite Ht. fold (need_of m i). fold (m1_of m i).
+        eexists; split; [reflexivity|]. apply inv_m1_pc; auto; try (intros; discriminate).
+        intros ? ? ? _ [= <-]. lia.
+    + intros [= <- <-]. unfold mon_step. rewrite Ht. fold (need_of m i). fold (m1_of m i).
+      eexists; split; [reflexivity|]. apply inv_m1_pc; auto; try (intros; discriminate).
+      intros ? ? ? _ [= <-]. lia.
+  - (* resolve, store read *)
+    destruct (i_checked _ _ _ I _ _ _ _ Ht Hpc) as (Hle & N & HN).
+    destruct (store s k) as [g|] eqn:Hs.
+    + intros [= <- <-]. unfold mon_step. rewrite Ht. fold (need_of m i). fold (m1_of m i).
+      eexists; split; [reflexivity|]. apply inv_m1_pc; auto; try (intros; discriminate).
+      intros k' nm' seen' g' Ht' [= <- <-]. rewrite Ht in Ht'. injection Ht' as <- <-.
+      destruct (i_store _ _ _ I _ _ Hs) as (Gk & Gin).
+      assert (A : forall p, In p (acked m) -> pkey p = k -> ge g p = true).
+      { intros p Hp Hk. destruct (i_acked _ _ _ I _ Hp) as (e & He & Hge). rewrite Hk, Hs in He.
+        injection He as <-. exact Hge. }
+      repeat split; auto. intros p Hp. apply A. eapply need_incl; eauto.
+    + intros [= <- <-]. unfold mon_step. rewrite Ht. fold (need_of m i). fold (m1_of m i).
+      rewrite fresh_R_intro.
+      * eexists; split; [reflexivity|]. apply inv_m1_pc; auto; intros; discriminate.
+      * intros p Hp Hk. exfalso. apply (need_incl _ _ _ i I) in Hp.
+        destruct (i_acked _ _ _ I _ Hp) as (e & He & _). rewrite Hk, Hs in He. discriminate.
+  - (* resolve, cache fill / answer *)
+    destruct (i_got _ _ _ I _ _ _ _ _ Ht Hpc) as (Gk & Gin & Hle & (N & HN & HNge) & Hcur).
+    assert (Hneed : need_of m i = N) by (unfold need_of; now rewrite HN).
+    cbn [andb]. destruct (N.eqb_spec seen (inval s)) as [E|E]; cbn [negb].
+    + (* no invalidation since the check: fill *)
+      intros [= <- <-]. unfold mon_step. rewrite Ht. fold (need_of m i). fold (m1_of m i).
+      set (c' := cache_insert (cache s) g).
+      assert (Hc' : exists z, c' (pkey g) = Some z /\ pkey z = k /\ In z (pubs tasks) /\
+                 forall p, In p (acked m) -> pkey p = k -> ge z p = true).
+      { unfold c', cache_insert. destruct (cache s (pkey g)) as [old|] eqn:Ho.
+        - destruct (N.ltb_spec (pts g) (pts old)).
+          + exists old. rewrite Ho. destruct (i_cache _ _ _ I _ _ Ho) as (A & B & C).
+            rewrite Gk in A. rewrite Gk in C. auto.
+          + exists g. unfold upd. rewrite N.eqb_refl. auto.
+        - exists g. unfold upd. rewrite N.eqb_refl. auto. }
+      destruct Hc' as (z & Hz & Zk & Zin & Zge).
+      rewrite fresh_R_intro.
+      * eexists; split; [reflexivity|].
+        constructor; cbn [store cache inval pcs m1_of acked needs].
+        -- apply (i_store _ _ _ I).
+        -- apply (i_acked _ _ _ I).
+        -- intros k' c Hc. destruct (N.eqb_spec k' (pkey g)) as [->|Ne].
+           ++ rewrite Hz in Hc. injection Hc as <-. rewrite Gk. auto.
+           ++ apply (i_cache _ _ _ I).
+              unfold c', cache_insert in Hc. destruct (cache s (pkey g)) as [old|];
+                [destruct (pts g <? pts old)|]; auto; unfold upd in Hc;
+                destruct (N.eqb_spec k' (pkey g)); try contradiction; auto.
+        -- intros j k' nm' seen' g' Ht' Hpc'. unfold updn in *. destruct (Nat.eqb_spec j i) as [->|Ne]; [discriminate|].
+           apply (i_got _ _ _ I _ _ _ _ _ Ht' Hpc').
+        -- intros j k' nm' seen' Ht' Hpc'. unfold updn in *. destruct (Nat.eqb_spec j i) as [->|Ne]; [discriminate|].
+           apply (i_checked _ _ _ I _ _ _ _ Ht' Hpc').
+        -- intros j N'. unfold updn. destruct (Nat.eqb_spec j i) as [->|Ne].
+           ++ intros [= <-]. eapply need_incl; eauto.
+           ++ apply (i_needs _ _ _ I).
+        -- intros j p Ht' Hpc'. unfold updn in *. destruct (Nat.eqb_spec j i) as [->|Ne]; [discriminate|].
+           apply (i_pending _ _ _ I _ _ Ht' Hpc').
+      * intros p Hp Hk. exists z. repeat split; auto.
+        -- apply Zge; auto. eapply need_incl; eauto.
+        -- unfold cache_resolve. fold c'. now rewrite Hz.
+    + (* invalidated since the check: answer from the packet, no fill *)
+      intros [= <- <-]. unfold mon_step. rewrite Ht. fold (need_of m i). fold (m1_of m i).
+      rewrite fresh_R_intro.
+      * eexists; split; [reflexivity|]. apply inv_m1_pc; auto; intros; discriminate.
+      * intros p Hp Hk. exists g. rewrite Hneed in Hp. repeat split; auto.
+  - (* publish, upsert *)
+    set (replace := match store s (pkey p) with Some e => negb (more_recent e p) | None => true end).
+    destruct replace eqn:Hr.
+    + intros [= <- <-]. unfold mon_step. rewrite Ht. fold (need_of m i). fold (m1_of m i).
+      eexists; split; [reflexivity|].
+      assert (Hnew : forall e, store s (pkey p) = Some e -> ge p e = true).
+      { intros e He. unfold replace in Hr. rewrite He in Hr. exact Hr. }
+      assert (Hmono : forall q, (exists e, store s (pkey q) = Some e /\ ge e q = true) ->
+                 exists e, upd (store s) (pkey p) (Some p) (pkey q) = Some e /\ ge e q = true).
+      { intros q (e & He & Hge). unfold upd. destruct (N.eqb_spec (pkey q) (pkey p)) as [Eq|Ne].
+        - exists p. split; auto. rewrite Eq in He. eapply ge_trans; [apply Hnew; eauto|exact Hge].
+        - eauto. }
+      constructor; cbn [store cache inval pcs m1_of acked needs].
+      * intros k e. unfold upd. destruct (N.eqb_spec k (pkey p)) as [->|Ne].
+        -- intros [= <-]. split; auto. eapply pubs_in; eauto.
+        -- apply (i_store _ _ _ I).
+      * intros q Hq. apply Hmono. apply (i_acked _ _ _ I _ Hq).
+      * apply (i_cache _ _ _ I).
+      * intros j k' nm' seen' g' Ht' Hpc'. unfold updn in *. destruct (Nat.eqb_spec j i) as [->|Ne]; [discriminate|].
+        apply (i_got _ _ _ I _ _ _ _ _ Ht' Hpc').
+      * intros j k' nm' seen' Ht' Hpc'. unfold updn in *. destruct (Nat.eqb_spec j i) as [->|Ne]; [discriminate|].
+        apply (i_checked _ _ _ I _ _ _ _ Ht' Hpc').
+      * intros j N'. unfold updn. destruct (Nat.eqb_spec j i) as [->|Ne].
+        -- intros [= <-]. eapply need_incl; eauto.
+        -- apply (i_needs _ _ _ I).
+      * intros j q Ht' Hpc'. unfold updn in *. destruct (Nat.eqb_spec j i) as [->|Ne].
+        -- rewrite Ht in Ht'. injection Ht' as <-. exists p. unfold upd. rewrite N.eqb_refl.
+           split; auto. apply ge_refl.
+        -- apply Hmono. apply (i_pending _ _ _ I _ _ Ht' Hpc').
+    + intros [= <- <-]. unfold mon_step. rewrite Ht. fold (need_of m i). fold (m1_of m i).
+      eexists; split; [reflexivity|]. apply inv_m1_pc; auto; intros; discriminate.
+  - (* publish, cache invalidation and acknowledgement *)
+    intros [= <- <-]. unfold mon_step. rewrite Ht. fold (need_of m i). fold (m1_of m i).
+    eexists; split; [reflexivity|].
+    constructor; cbn [store cache inval pcs m1_of acked needs].
+    + apply (i_store _ _ _ I).
+    + intros q [<-|Hq]; [apply (i_pending _ _ _ I _ _ Ht Hpc)|apply (i_acked _ _ _ I _ Hq)].
+    + intros k c. unfold upd. destruct (N.eqb_spec k (pkey p)) as [->|Ne]; [discriminate|].
+      intros Hc. destruct (i_cache _ _ _ I _ _ Hc) as (A & B & C). repeat split; auto.
+      intros q [<-|Hq] Hk; [congruence|auto].
+    + intros j k' nm' seen' g' Ht' Hpc'. unfold updn in *. destruct (Nat.eqb_spec j i) as [->|Ne]; [discriminate|].
+      destruct (i_got _ _ _ I _ _ _ _ _ Ht' Hpc') as (A & B & C & D & E).
+      repeat split; auto; try lia.
+    + intros j k' nm' seen' Ht' Hpc'. unfold updn in *. destruct (Nat.eqb_spec j i) as [->|Ne]; [discriminate|].
+      destruct (i_checked _ _ _ I _ _ _ _ Ht' Hpc') as (A & B). split; [lia|auto].
+    + intros j N'. unfold updn. destruct (Nat.eqb_spec j i) as [->|Ne].
+      * intros [= <-]. apply incl_tl. eapply need_incl; eauto.
+      * intros H. apply incl_tl. eapply (i_needs _ _ _ I); eauto.
+    + intros j q Ht' Hpc'. unfold updn in *. destruct (Nat.eqb_spec j i) as [->|Ne]; [discriminate|].
+      apply (i_pending _ _ _ I _ _ Ht' Hpc').
+  - (* get_signed_packet *)
+    intros [= <- <-]. unfold mon_step. rewrite Ht. fold (need_of m i). fold (m1_of m i).
+    rewrite fresh_G_intro.
+    + eexists; split; [reflexivity|]. apply inv_m1_pc; auto; intros; discriminate.
+    + intros p Hp Hk. apply (need_incl _ _ _ i I) in Hp.
+      destruct (i_acked _ _ _ I _ Hp) as (e & He & Hge). rewrite Hk in He.
+      destruct (i_store _ _ _ I _ _ He) as (A & B).
+      exists e. rewrite He. repeat split; auto.
+Qed.
+
+Lemma run_monitor tasks : forall sched s m,
+  Inv tasks s m -> mon_run tasks m sched (run true tasks s sched) = true.
+Proof.
+  induction sched as [|i r IH]; intros s m I; [reflexivity|].
+  cbn [run]. destruct (step true tasks s i) as [s' o] eqn:E. cbn [mon_run].
+  destruct (step_inv _ _ _ _ _ _ I E) as (m' & -> & I'). apply IH, I'.
+Qed.
+
+(* For every task list and every schedule the run of the (fixed) model passes the monitor. *)
+Lemma fixed_monitor : forall i, monitor i (model_fx true i) = true.
+Proof. intros [tasks sched]. unfold monitor, model_fx. apply run_monitor, inv_init. Qed.
+
+(* ---------- what the monitor says, in words ----------
+   A run is the list of (task index, observation) pairs.  If it contains the
+   acknowledgement of publish p as an update, and later the answer of a lookup
+   for p's key whose first step comes after that acknowledgement, then the
+   answer is that of a published packet for the key that is not older than p. *)
+Fixpoint mon_runc (tasks : list task) (m : mst) (l : list (nat * obs)) : bool :=
+  match l with
+  | [] => true
+  | (i, o) :: r => match mon_step tasks m i o with
+                   | Some m' => mon_runc tasks m' r
+                   | None => false
+                   end
+  end.
+
+Lemma mon_run_combine tasks : forall sched os m,
+  mon_run tasks m sched os = mon_runc tasks m (combine sched os).
+Proof.
+  induction sched as [|i r IH]; intros [|o os] m; cbn; try reflexivity.
+  destruct (mon_step tasks m i o); auto.
+Qed.
+
+(* p is waited for by lookup i: either i has not started and p is acknowledged,
+   or i started when p was already acknowledged *)
+Definition covers (m : mst) (i : nat) (p : pkt) : Prop :=
+  In p (need_of m i).
+
+Lemma mon_step_shape tasks m j o m' :
+  mon_step tasks m j o = Some m' ->
+  m' = m \/ (o <> OSkip /\ (m' = m1_of m j \/ exists p, m' = mkMst (p :: acked m) (needs (m1_of m j)))).
+Proof.
+  unfold mon_step. fold (need_of m j). fold (m1_of m j).
+  destruct (nth_error tasks j) as [t|].
+  2:{ destruct o; intros [= <-]; now left. }
+  destruct o; try (intros [= <-]; now left); intros H; right; (split; [discriminate|]);
+    destruct t; try (injection H as <-; now left);
+    try (match type of H with (if ?c then _ else _) = _ => destruct c end;
+         [injection H as <-; now left|discriminate]).
+  destruct u; injection H as <-; [right; eauto|now left].
+Qed.
+
+Lemma mon_step_covers tasks m j o m' i p :
+  mon_step tasks m j o = Some m' -> covers m i p -> covers m' i p.
+Proof.
+  intros H C. unfold covers in *.
+  assert (C1 : In p (need_of (m1_of m j) i)).
+  { unfold need_of, m1_of, updn in *. cbn [needs acked].
+    destruct (Nat.eqb_spec i j) as [->|]; auto. }
+  destruct (mon_step_shape _ _ _ _ _ H) as [->|(_ & [->|(q & ->)])]; auto.
+  unfold need_of in *. cbn [needs acked] in *. destruct (needs (m1_of m j) i); auto. now right.
+Qed.
+
+Lemma mon_step_needs tasks m j o m' i :
+  mon_step tasks m j o = Some m' -> i <> j -> needs m' i = needs m i.
+Proof.
+  intros H Ne.
+  assert (Q : needs (m1_of m j) i = needs m i).
+  { unfold m1_of, updn. cbn [needs]. destruct (Nat.eqb_spec i j); [contradiction|reflexivity]. }
+  destruct (mon_step_shape _ _ _ _ _ H) as [->|(_ & [->|(q & ->)])]; auto.
+Qed.
+
+Lemma mon_step_acked tasks m j o m' :
+  mon_step tasks m j o = Some m' -> incl (acked m) (acked m').
+Proof.
+  intros H. destruct (mon_step_shape _ _ _ _ _ H) as [->|(_ & [->|(q & ->)])];
+    cbn [acked m1_of]; try apply incl_refl. apply incl_tl, incl_refl.
+Qed.
+
+Lemma mon_runc_app tasks : forall l1 m l2,
+  mon_runc tasks m (l1 ++ l2) = true ->
+  exists m1, mon_runc tasks m1 l2 = true /\
+    (forall i p, covers m i p -> covers m1 i p) /\
+    (forall i, (forall o, In (i, o) l1 -> o = OSkip) -> needs m1 i = needs m i) /\
+    (incl (acked m) (acked m1)).
+Proof.
+  induction l1 as [|[j o] r IH]; intros m l2 H.
+  - exists m. repeat split; auto. apply incl_refl.
+  - cbn in H. destruct (mon_step tasks m j o) as [m'|] eqn:E; [|discriminate].
+    destruct (IH _ _ H) as (m1 & R & C & Nn & A). exists m1. split; [exact R|]. split; [|split].
+    + intros i p Hc. apply C. eapply mon_step_covers; eauto.
+    + intros i Hi. rewrite Nn by (intros o' Ho'; apply Hi; now right).
+      destruct (Nat.eq_dec i j) as [->|Ne].
+      * rewrite (Hi o (or_introl eq_refl)) in E. cbn in E. now injection E as <-.
+      * eapply mon_step_needs; eauto.
+    + eapply incl_tran; [eapply mon_step_acked; eauto|exact A].
+Qed.
+
+Lemma monitor_sound tasks sched os :
+  monitor (tasks, sched) os = true ->
+  forall l1 l2 l3 j p i k nm a,
+    combine (full_sched tasks sched) os = l1 ++ (j, ODoneP true) :: l2 ++ (i, ODoneR a) :: l3 ->
+    nth_error tasks j = Some (TPublish p) ->
+    nth_error tasks i = Some (TResolve k nm) ->
+    pkey p = k ->
+    (forall o, In (i, o) l1 -> o = OSkip) ->
+    exists q, In q (pubs tasks) /\ pkey q = k /\ ge q p = true /\ ans q nm = a.
+Proof.
+  unfold monitor. rewrite mon_run_combine. intros H l1 l2 l3 j p i k nm a E Hj Hi Hk Hfirst.
+  rewrite E in H. clear E.
+  destruct (mon_runc_app _ _ _ _ H) as (m1 & H1 & _ & N1 & _).
+  specialize (N1 i Hfirst). cbn [minit needs] in N1.
+  cbn [mon_runc] in H1. unfold mon_step in H1. rewrite Hj in H1.
+  fold (need_of m1 j) in H1. fold (m1_of m1 j) in H1.
+  set (m2 := mkMst (p :: acked m1) (needs (m1_of m1 j))) in H1.
+  assert (C2 : covers m2 i p).
+  { unfold covers, need_of, m2, m1_of, updn. cbn [needs acked].
+    destruct (Nat.eqb_spec i j) as [->|Ne]; [congruence|]. rewrite N1. now left. }
+  destruct (mon_runc_app _ _ _ _ H1) as (m3 & H3 & C3 & _ & _).
+  specialize (C3 _ _ C2). cbn [mon_runc] in H3. unfold mon_step in H3. rewrite Hi in H3.
+  fold (need_of m3 i) in H3.
+  destruct (fresh_R (pubs tasks) k nm a (need_of m3 i)) eqn:F; [|discriminate].
+  unfold fresh_R in F. rewrite forallb_forall in F. specialize (F p C3).
+  rewrite Hk, N.eqb_refl in F. cbn [negb orb] in F.
+  apply existsb_exists in F as (q & Hq & F).
+  apply andb_prop in F as [F Fa]. apply andb_prop in F as [Fk Fg].
+  exists q. repeat split; auto.
+  - now apply N.eqb_eq.
+  - destruct (ans q nm), a; cbn in Fa; try discriminate; auto. apply N.eqb_eq in Fa. congruence.
+Qed.
+
+(* the statement of the property for the code as it is (every task list, every schedule) *)
+Lemma no_stale_after_ack tasks sched :
+  forall l1 l2 l3 j p i k nm a,
+    combine (full_sched tasks sched) (model (tasks, sched)) =
+      l1 ++ (j, ODoneP true) :: l2 ++ (i, ODoneR a) :: l3 ->
+    nth_error tasks j = Some (TPublish p) ->
+    nth_error tasks i = Some (TResolve k nm) ->
+    pkey p = k ->
+    (forall o, In (i, o) l1 -> o = OSkip) ->
+    exists q, In q (pubs tasks) /\ pkey q = k /\ ge q p = true /\ ans q nm = a.
+Proof. apply monitor_sound. apply (fixed_monitor (tasks, sched)). Qed.
 
 (* ---- the race in the code before the fix ---- *)
 Definition wp1 := mkPkt 0 1 0 1 [1].
@@ -12,3 +464,10 @@ Definition witness : input :=
 
 Lemma unfixed_refuted : exists i, monitor i (model_fx false i) = false.
 Proof. exists witness. vm_compute. reflexivity. Qed.
+
+(* the same schedule on the fixed code: the late fill is suppressed, the later lookup sees p2 *)
+Example witness_fixed :
+  model_fx true witness =
+  [OPark 3; ODoneP true; OPark 1; OPark 2; OPark 3; ODoneP true; ODoneR (Some 1);
+   OSkip; OSkip; OSkip; OSkip; OSkip; OSkip; OSkip; OSkip; OSkip; OPark 1; OPark 2; ODoneR (Some 2)].
+Proof. vm_compute. reflexivity. Qed.
